@@ -45,6 +45,7 @@ func VerifFault() {
 	rolledBack := false
 	if verifParam("rollbacks", 1) == 1 && verifBool("rollback") {
 		// the failure hit (if at all) during the operations (Flush); the transaction is given up
+		verifPoll() // the background writer processes what Flush has queued (and meets the failure)
 		verifAssert(tx.Rollback() == nil, "Rollback succeeds")
 		rolledBack = true
 		cerr = &verifIOErr{"rolled back"}
@@ -64,7 +65,8 @@ func VerifFault() {
 	} else {
 		verifAssert(faults > 0 || isKind(cerr, OutOfMemory), "Commit fails only because of the injected failure (or OutOfMemory)")
 		// the last committed state is kept in memory
-		if kind == faultSync && faults == 1 && s.disk.faultOrd == syncsBefore+1 {
+		if kind == faultSync && faults >= 1 && s.disk.faultOrd == syncsBefore+1 {
+			// (with a burst, the syncs issued by the error handling fail as well)
 			// only the final sync (after the header write) failed: the header of the attempt may be durable
 			onlyFinalSync = true
 		}
